@@ -26,7 +26,7 @@ theorem C11_count (d : DF) (h : Inv d) : countModel d = some d.eval.rows.length 
 
 private theorem limit_step (d : DF) (h : Inv d) (k : Nat) :
     (d.apply (.limit k)).eval = d.eval.limit k ∧ Inv (d.apply (.limit k)) := by
-  have := C01_step d (.limit k) h trivial (by simp [Step.isOrderBy])
+  have := C01_step d (.limit k) h trivial (by simp [Step.isOrderBy]) rfl
   exact ⟨this.1, this.2.1⟩
 
 /-- `head(n)` / `limit(n).collect()` return the first n collected rows — for every n, 0 included. -/
@@ -43,7 +43,7 @@ theorem C11_first (d : DF) (h : Inv d) : firstRow d = d.eval.rows.head? := by
 /-- `isEmpty()` is true exactly when `collect()` returns no row. -/
 theorem C11_isEmpty (d : DF) (h : Inv d) : isEmptyModel d = d.eval.rows.isEmpty := by
   have hs := C01_step d (.select [("true", .lit (.bool true))]) h
-    (by simp [Step.WF, Expr.refs]) (by simp [Step.isOrderBy])
+    (by simp [Step.WF, Expr.refs]) (by simp [Step.isOrderBy]) rfl
   simp only [isEmptyModel]
   rw [C11_first _ hs.2.1, hs.1]
   simp only [specStep, Table.project]
@@ -51,27 +51,46 @@ theorem C11_isEmpty (d : DF) (h : Inv d) : isEmptyModel d = d.eval.rows.isEmpty 
 
 /-- `show(n)` prints exactly the first n collected rows … -/
 theorem C11_show_rows (d : DF) (h : Inv d) (n : Nat) : (showModel d n).2 = d.eval.rows.take n := by
-  have hw := (wrap_fresh d h).inv
-  have hl := limit_step d.wrap hw n
-  simp only [showModel, showWrapsFirst, if_true]
-  rw [hl.1, wrap_eval d h]; rfl
+  simp only [showModel]
+  cases showWrapsFirst with
+  | true =>
+    have hw := (wrap_fresh d h).inv
+    have hl := limit_step d.wrap hw n
+    simp only [if_true]
+    rw [hl.1, wrap_eval d h]; rfl
+  | false =>
+    have hl := limit_step d h n
+    simp only [Bool.false_eq_true, if_false]
+    rw [hl.1]; rfl
 
 /-- … under distinct headers that equal the column names whenever those do not repeat
     (partial: `H_showNonEmpty` — the real code prints no header at all for an empty result). -/
 theorem C11_show_partial (d : DF) (h : Inv d) (n : Nat) (hne : H_showNonEmpty d n = true) :
     (showModel d n).1.Nodup ∧ (showModel d n).1.length = d.eval.cols.length ∧
     (d.eval.cols.Nodup → (showModel d n).1 = d.eval.cols) := by
-  have hw := (wrap_fresh d h).inv
-  have hl := limit_step d.wrap hw n
-  have hc : (d.wrap.apply (.limit n)).eval.cols = d.eval.cols := by
-    rw [hl.1, wrap_eval d h]; rfl
-  have hr : (d.wrap.apply (.limit n)).eval.rows = d.eval.rows.take n := by
-    rw [hl.1, wrap_eval d h]; rfl
-  have hcond : (showHeaderNeedsRow && (d.wrap.apply (.limit n)).eval.rows.isEmpty) = false := by
+  -- whichever way `show` is written (wrap first or not), the table it collects is `limit n` of the DataFrame
+  have key : ∃ t : Table, (showModel d n) = (if showHeaderNeedsRow && t.rows.isEmpty then [] else uniqueFieldNames t.cols, t.rows)
+      ∧ t.cols = d.eval.cols ∧ t.rows = d.eval.rows.take n := by
+    simp only [showModel]
+    cases showWrapsFirst with
+    | true =>
+      have hw := (wrap_fresh d h).inv
+      have hl := limit_step d.wrap hw n
+      refine ⟨(d.wrap.apply (.limit n)).eval, by simp, ?_, ?_⟩
+      · rw [hl.1, wrap_eval d h]; rfl
+      · rw [hl.1, wrap_eval d h]; rfl
+    | false =>
+      have hl := limit_step d h n
+      refine ⟨(d.apply (.limit n)).eval, by simp, ?_, ?_⟩
+      · rw [hl.1]; rfl
+      · rw [hl.1]; rfl
+  obtain ⟨t, ht, hc, hr⟩ := key
+  have hcond : (showHeaderNeedsRow && t.rows.isEmpty) = false := by
     rw [hr]
     simp only [H_showNonEmpty, Bool.or_eq_true, beq_iff_eq, Bool.not_eq_true'] at hne
     rcases hne with h1 | h1 <;> simp [h1]
-  simp only [showModel, showWrapsFirst, if_true, hcond, Bool.false_eq_true, if_false]
+  rw [ht]
+  simp only [hcond, Bool.false_eq_true, if_false]
   refine ⟨(C11_unique_nodup _).1, ?_, ?_⟩
   · rw [(C11_unique_nodup _).2, hc]
   · intro hnd; rw [hc]; exact C11_unique_id _ hnd
@@ -88,37 +107,40 @@ theorem C11_same_statements :
 /-- **C11 over whole programs**: for every table and every chain of C01 steps (any length, any
     order) every action agrees with the sequential PySpark result `specRun T steps`. -/
 theorem C11_program (T : Table) (steps : List Step) (hT : T.WF) (hs : StepsWF T steps)
-    (hsc : noAdjacentOrderBy steps = true) (n : Nat) :
+    (hsc : noAdjacentOrderBy steps = true) (hin : steps.all Step.inTheorem = true) (n : Nat) :
     let d := (DF.init T).run steps
     let R := specRun T steps
     countModel d = some R.rows.length ∧ isEmptyModel d = R.rows.isEmpty ∧
     firstRow d = R.rows.head? ∧ headRows d (some n) = R.rows.take n ∧ (showModel d n).2 = R.rows.take n := by
   intro d R
-  have he : d.eval = R := C01_partial T steps hT hs hsc
+  have he : d.eval = R := C01_partial T steps hT hs hsc hin
   have hi : Inv d := by
     -- the invariant holds after every prefix
     have : ∀ (ss : List Step) (d0 : DF), Inv d0 → StepsWF d0.eval ss → noAdjacentOrderBy ss = true →
+        ss.all Step.inTheorem = true →
         ((∃ k rest, ss = Step.orderBy k :: rest) → d0.last ≠ .orderBy) → Inv (d0.run ss) := by
       intro ss
       induction ss with
-      | nil => intro d0 h _ _ _; exact h
+      | nil => intro d0 h _ _ _ _; exact h
       | cons s rest ih =>
-        intro d0 h hwf hadj hfirst
+        intro d0 h hwf hadj hall hfirst
+        have hall' : s.inTheorem = true ∧ rest.all Step.inTheorem = true := by simpa using hall
         have hno : s.isOrderBy = true → d0.last ≠ .orderBy := by
           intro hso; cases s <;> simp [Step.isOrderBy] at hso
           exact hfirst ⟨_, _, rfl⟩
-        obtain ⟨he1, hi1, hl1⟩ := C01_step d0 s h hwf.1 hno
+        obtain ⟨he1, hi1, hl1⟩ := C01_step d0 s h hwf.1 hno hall'.1
         simp only [DF.run, List.foldl_cons]
         apply ih (d0.apply s) hi1 (by rw [he1]; exact hwf.2)
         · cases rest with
           | nil => rfl
           | cons b r => simp [noAdjacentOrderBy] at hadj; exact hadj.2
+        · exact hall'.2
         · rintro ⟨k, r, rfl⟩
           apply hl1
           simp [noAdjacentOrderBy, Step.isOrderBy] at hadj
           cases s <;> simp_all [Step.isOrderBy]
     have hf := init_fresh T hT
-    exact this steps (DF.init T) hf.inv (by rw [fresh_eval _ hf]; exact hs) hsc (fun _ => by simp [DF.init])
+    exact this steps (DF.init T) hf.inv (by rw [fresh_eval _ hf]; exact hs) hsc hin (fun _ => by simp [DF.init])
   rw [← he]
   exact ⟨C11_count d hi, C11_isEmpty d hi, C11_first d hi, C11_head d hi n, C11_show_rows d hi n⟩
 
